@@ -89,6 +89,7 @@ type entryReport struct {
 	Covers      map[string]int `json:"cover_labels"`
 	Labels      map[string]int `json:"assert_labels"`
 	Samples     []string       `json:"sample_paths"`
+	Witness     []map[string]uint64 `json:"-"`
 	Violations  int            `json:"violations"`
 	Inconcl     []string       `json:"inconclusive,omitempty"`
 }
@@ -103,7 +104,29 @@ func main() {
 	noNative := flag.Bool("no-native", false, "skip native differential/replay")
 	solverKind := flag.String("solver", "z3", "primary solver")
 	verbose := flag.Bool("v", false, "verbose")
-	flag.Parse()
+	// accept flags after the property id as well ("check C05 --tier thorough --only x")
+	{
+		var flags, pos []string
+		args := os.Args[1:]
+		for i := 0; i < len(args); i++ {
+			a := args[i]
+			if strings.HasPrefix(a, "-") {
+				flags = append(flags, a)
+				name := strings.TrimLeft(a, "-")
+				if !strings.Contains(name, "=") {
+					if f := flag.Lookup(name); f != nil {
+						if bf, ok := f.Value.(interface{ IsBoolFlag() bool }); !(ok && bf.IsBoolFlag()) && i+1 < len(args) {
+							i++
+							flags = append(flags, args[i])
+						}
+					}
+				}
+			} else {
+				pos = append(pos, a)
+			}
+		}
+		flag.CommandLine.Parse(append(flags, pos...))
+	}
 	if *tier == "" {
 		*tier = "quick"
 	}
@@ -223,7 +246,7 @@ func main() {
 			rep := &entryReport{Name: e.Func, File: filepath.Base(hf.Path), Doc: e.Doc, Params: p.Params, Paths: st.Paths, Completed: st.Completed,
 				Aborted: st.Aborted, Decisions: st.Decisions, SymBranches: st.SymBranches, Obligations: st.Obligations,
 				Discharged: st.Discharged, Trivial: st.TrivialOblig, Queries: st.Queries, SolverS: r.SolverTime.Seconds(),
-				WallS: r.Wall.Seconds(), Steps: st.Steps, Covers: st.Covers, Labels: st.AssertLabels, Samples: st.SamplePaths,
+				WallS: r.Wall.Seconds(), Steps: st.Steps, Covers: st.Covers, Labels: st.AssertLabels, Samples: st.SamplePaths, Witness: st.SampleWitness,
 				Violations: len(st.Violations), Inconcl: st.Inconclusive}
 			reports = append(reports, rep)
 			fmt.Printf("  %-40s paths=%d completed=%d aborted=%v oblig=%d/%d queries=%d wall=%.1fs solver=%.1fs viol=%d\n",
@@ -792,6 +815,23 @@ func nativeReplay(repo, work string, hfs []*sym.HarnessFile, cases []replayCase)
 					entries = append(entries, e.Func)
 				}
 			}
+			// helper files (no entries) living in other packages are part of every native build
+			helperRT := map[string]bool{}
+			for _, hf := range hfs {
+				if hf.PkgPath == pkg || len(hf.Entries) > 0 {
+					continue
+				}
+				real := filepath.Join(dir, "helper_"+filepath.Base(hf.Virtual))
+				os.WriteFile(real, hf.Src, 0o644)
+				overlay[hf.Virtual] = real
+				hdir := filepath.Dir(hf.Virtual)
+				if !helperRT[hdir] {
+					helperRT[hdir] = true
+					rtp := filepath.Join(dir, "helper_rt_"+sanitizeName(hf.PkgPath)+".go")
+					os.WriteFile(rtp, []byte("package "+packageName(hf.Src)+"\n"+nativeRT), 0o644)
+					overlay[filepath.Join(hdir, "zz_symgo_rt.go")] = rtp
+				}
+			}
 			rt := "package " + pkgName + "\n" + nativeRT
 			os.WriteFile(filepath.Join(dir, "zz_symgo_rt.go"), []byte(rt), 0o644)
 			overlay[filepath.Join(pkgDirPath, "zz_symgo_rt.go")] = filepath.Join(dir, "zz_symgo_rt.go")
@@ -894,11 +934,10 @@ func differential(repo, work string, hfs []*sym.HarnessFile, l *sym.Loaded, tier
 				continue
 			}
 			n := 0
-			for _, s := range rep.Samples {
+			for _, fixed := range rep.Witness {
 				if n >= tc.NativeN {
 					break
 				}
-				fixed := parseWitness(s)
 				if fixed == nil {
 					continue
 				}
@@ -1029,4 +1068,13 @@ func crossCheck(dir string, tc tierCfg, primary string) (int, []string) {
 	}
 	wg.Wait()
 	return n, bad
+}
+
+func sanitizeName(s string) string {
+	return strings.Map(func(r rune) rune {
+		if r >= 'a' && r <= 'z' || r >= 'A' && r <= 'Z' || r >= '0' && r <= '9' {
+			return r
+		}
+		return '_'
+	}, s)
 }
